@@ -110,12 +110,15 @@ def _parse_races(text):
             m = re.search(r"(?m)^\s*((?:Previous )?(?:[Ww]rite|[Rr]ead|[Aa]tomic \w+)) at \S+ by (?:goroutine \d+|main goroutine):", part)
             if not m:
                 continue
-            top = None
+            top, callers = None, []
             for fn, f, l in re.findall(r"\n\s+(\S+)\(\)\n\s+(\S+):(\d+)", part):
                 if "/internal/" in f and "zz_verif" not in f and "AdGuardHome" in fn:
-                    top = (fn, "internal/" + f.split("/internal/", 1)[1], int(l))
-                    break
-            stacks.append((m.group(1).replace("Previous ", "").lower(), top, "\n".join(part.strip().splitlines()[:9])))
+                    fr = (fn, "internal/" + f.split("/internal/", 1)[1], int(l))
+                    if top is None:
+                        top = fr
+                    else:
+                        callers.append(fr)
+            stacks.append((m.group(1).replace("Previous ", "").lower(), top, "\n".join(part.strip().splitlines()[:9]), callers))
         if len(stacks) >= 2:
             res.append(stacks[:2])
     return res
@@ -198,6 +201,10 @@ def _stress(ctx, tbl, known, race, millis, seed):
             for s in st:
                 keys |= bypos.get("%s:%d" % (s[1][1], s[1][2]), set())
                 keys |= byfn.get(_norm_fn(s[1][0]), set())
+                # the access happens inside a callee of the flagged line (e.g. the object
+                # behind an unsynchronised pointer): match the caller frames by exact position
+                for fr in s[3]:
+                    keys |= bypos.get("%s:%d" % (fr[1], fr[2]), set()) & badkeys
             kk = sorted(keys & known)
             if kk:
                 n_known += 1
